@@ -7,17 +7,20 @@
    pluq_naive = _mzd_pluq_naive (ple.c:180), pluq_of_ple = post-processing of _mzd_pluq (ple.c:50).
    An output is ((r, A'), (P, Q)); [P0]/[Q0] are the arbitrary contents of P->values/Q->values on entry.
 
-   NOT proven here: the block recursion [ple_rec] (= _mzd_ple, ple.c:62; Schur complement and
-   _mzd_compress_l) beyond its non-recursive paths ([C03_rec_partial]); its outputs, like those of
-   every other route of the library, are checked at run time by the verified checkers [ple_ok] /
-   [pluq_ok] and compared with the naive models ([ex_rec_accept] below runs the model).
+   The block recursion [ple_rec] (= _mzd_ple, ple.c:62: truncation at the first zero row, column split
+   on a word boundary, mzd_apply_p_left, TRSM, Schur complement, second call, P/Q offset fix-ups,
+   _mzd_compress_l with its word-wise moves) is proven for every base case meeting the specification
+   and every cutoff ([C03_rec], Alg/PLEProofs6-10.v); the Four-Russians base case _mzd_ple_russian is
+   not modelled: it is the hypothesis [base] of [C03_rec], and its outputs, like those of every
+   route of the library, are checked at run time by the verified checkers [ple_ok] / [pluq_ok].
 
    FINDING ([C03_rec_Q_tail_refuted]): "Q[j] = j for j >= r" (listed in DESIGN.md) holds for the naive
    routines ([C03_naive_Q_tail], [C03_pluq_Q_tail]) but not for the block recursion, in the model and
    in the library; it is therefore not part of [ple_spec] / [pluq_spec]. *)
 From Coq Require Import List NArith Arith Lia Bool Sorted.
 From M4 Require Import Base.Bits Lin.Mat Lin.Ops Lin.Spec Alg.Gauss Alg.PLE Alg.PLELemmas Alg.PLESpec
-                       Alg.PLEProofs Alg.PLEProofs2 Alg.PLEProofs3 Alg.PLEProofs4.
+                       Alg.PLEProofs Alg.PLEProofs2 Alg.PLEProofs3 Alg.PLEProofs4 Alg.PLEProofs5
+                       Alg.PLEProofs10.
 Import ListNotations.
 Local Open Scope nat_scope.
 
@@ -98,17 +101,38 @@ Theorem C03_rec_Q_tail_refuted :
 Proof. exact ple_rec_Q_tail_refuted. Qed.
 Print Assumptions C03_rec_Q_tail_refuted.
 
-(** the block recursion, PARTIAL: only the paths of _mzd_ple that do not recurse (no non-zero row;
-    ncols <= 64 or width * nrows <= cutoff), for any base case meeting the specification.
-    Full statement (unproven): the same conclusion without the hypothesis [ple_rec_nonrec]. *)
-Theorem C03_rec_partial : forall (base : mat -> list nat -> list nat -> ple_out) (cutoff : nat)
-    (A : mat) (P0 Q0 : list nat),
+(** the block recursion meets the specification, for every base case meeting it and every cutoff *)
+Theorem C03_rec : forall (base : mat -> list nat -> list nat -> ple_out),
   (forall A P0 Q0, wf A -> length P0 = nr A -> length Q0 = nc A -> ple_spec A (base A P0 Q0)) ->
+  forall (cutoff : nat) (A : mat) (P0 Q0 : list nat),
   wf A -> length P0 = nr A -> length Q0 = nc A ->
-  ple_rec_nonrec cutoff A = true ->
   ple_spec A (ple_rec base cutoff A P0 Q0).
-Proof. exact ple_rec_nonrec_partial. Qed.
-Print Assumptions C03_rec_partial.
+Proof. intros base Hb cutoff A P0 Q0. now apply ple_rec_spec. Qed.
+Print Assumptions C03_rec.
+
+(** ... and so does _mzd_pluq = block-recursive PLE + triangular column swaps *)
+Theorem C03_pluq_rec : forall (base : mat -> list nat -> list nat -> ple_out),
+  (forall A P0 Q0, wf A -> length P0 = nr A -> length Q0 = nc A -> ple_spec A (base A P0 Q0)) ->
+  forall (cutoff : nat) (A : mat) (P0 Q0 : list nat),
+  wf A -> length P0 = nr A -> length Q0 = nc A ->
+  pluq_spec A (pluq_rec base cutoff A P0 Q0).
+Proof. intros base Hb cutoff A P0 Q0. now apply pluq_rec_spec. Qed.
+Print Assumptions C03_pluq_rec.
+
+(** the hypothesis on the base case is satisfiable: the naive routine is one *)
+Example C03_rec_base_naive :
+  forall A P0 Q0, wf A -> length P0 = nr A -> length Q0 = nc A -> ple_spec A (ple_naive A P0 Q0).
+Proof. exact ple_naive_spec. Qed.
+
+(** what every output meeting the specification gives its clients: E = U Q (padded with zero rows) is
+    a row echelon form of A with pivot columns Q[0..r), row equivalent to A, and P A = L E *)
+Theorem C03_echelon : forall (A : mat) (r : nat) (A' : mat) (P Q : list nat),
+  wf A -> pluq_spec A ((r, A'), (P, Q)) ->
+  let E := plu_Epad A r A' Q in
+  wf E /\ nr E = nr A /\ nc E = nc A /\ row_equiv A E /\ is_ref E (firstn r Q) /\
+  apply_p_left A P = mmul (plu_L A r A') (plu_E A r A' Q).
+Proof. exact pluq_echelon. Qed.
+Print Assumptions C03_echelon.
 
 (** * non-vacuity: the checkers accept the models' outputs on rank deficient matrices with junk in
     P0/Q0, and reject corrupted outputs *)
